@@ -38,6 +38,7 @@ type fullCfg struct {
 	Steps      int    `json:"steps"`
 	Faults     bool   `json:"backend_faults"`
 	Partial    bool   `json:"partial_failures"`
+	Wait       bool   `json:"wait_for_result"`
 }
 
 type fullReq struct {
@@ -104,6 +105,7 @@ func fullConfig(tp *simkit.Tape, prop string) fullCfg {
 	c.Steps = tp.Range(6, 40)
 	c.Faults = tp.Chance(2, 3)
 	c.Partial = c.Faults && c.Signal != "metrics" && tp.Chance(1, 2)
+	c.Wait = !c.Persistent && tp.Chance(1, 4)
 	return c
 }
 
@@ -120,6 +122,7 @@ func (s *fullSim) build(inc *Incarnation) (simExporter, error) {
 	qc.Sizer = sizer
 	qc.QueueSize = cfg.Cap
 	qc.NumConsumers = cfg.Consumers
+	qc.WaitForResult = cfg.Wait
 	if cfg.Persistent {
 		sid := storageID
 		qc.StorageID = &sid
@@ -463,20 +466,29 @@ func (s *fullSim) finalChecks() {
 		// items of requests whose Consume never returned nil/err (none here: non-blocking queue)
 		want := s.given - storedItems
 		r.Logf("  counters: sent=%d send_failed=%d enqueue_failed=%d; given=%d still_stored=%d", sent, failed, enq, s.given, storedItems)
+		// with wait_for_result the producer also sees the outcome of the send: requests that were enqueued, sent and
+		// failed come back as errors from Consume
+		var refusedItems, waitSendFailedItems int64
+		for _, q := range s.reqs {
+			if q.refused {
+				if s.cfg.Wait && (errors.Is(q.err, errTransient) || errors.Is(q.err, errPermanent) || errors.Is(q.err, context.DeadlineExceeded)) {
+					waitSendFailedItems += int64(len(q.items))
+				} else {
+					refusedItems += int64(len(q.items))
+				}
+			}
+		}
 		if sent+failed+enq != want {
 			locus := "exporter-balance"
 			if storedItems > 0 {
 				locus = "exporter-balance/with-items-still-stored"
 			}
+			if s.cfg.Wait && waitSendFailedItems > 0 && sent+failed+enq == want+waitSendFailedItems {
+				locus = "exporter-balance/wait-for-result-send-failure-also-counted-as-enqueue-failed"
+			}
 			r.Failf("balance", locus, "sent(%d)+send_failed(%d)+enqueue_failed(%d)=%d but given(%d)-still_stored(%d)=%d [%s]", sent, failed, enq, sent+failed+enq, s.given, storedItems, want, s.cfg.Signal)
 		}
-		var refusedItems int64
-		for _, q := range s.reqs {
-			if q.refused {
-				refusedItems += int64(len(q.items))
-			}
-		}
-		if enq != refusedItems {
+		if enq != refusedItems && !(s.cfg.Wait && enq == refusedItems+waitSendFailedItems) {
 			r.Failf("balance", "enqueue-failed", "enqueue_failed counter %d, items of refused requests %d", enq, refusedItems)
 		}
 	}
